@@ -217,7 +217,25 @@ func (rn *runner) corpusPreBlock() {
 	rn.blockCase(time.Second, [][]byte{{1, 2, 3}, []byte("METADATA"), []byte("METADATA"), {}}, "corpus:preblock:odd")
 }
 
+// 7. the recipient of a non-voting undelegation is a blocked address (a module account): the
+//    payout at completion is refused by the bank. Found: the end blocker returns that error at
+//    every block from then on (halt). Repaired: the message is rejected.
+func (rn *runner) corpusBlockedRecipient() {
+	rn.fresh("corpus:sc-blocked-recipient")
+	if rn.dead {
+		return
+	}
+	w := rn.w
+	w.queue("sc-undelegate", 5, 2_000_000, w.msgNvUndelegateTo(5, 0, 50_000, w.feeColl.String()))
+	w.queue("sc-undelegate", 4, 2_000_000, w.msgNvUndelegateTo(4, len(w.vals)-1, 60_000, w.h.Accts[1].Addr.String()))
+	rn.blockCase(time.Second, nil, "corpus:sc-blocked-recipient:undelegate")
+	for k := 0; k < 4 && !rn.dead; k++ {
+		rn.blockCase(8*time.Second, nil, "corpus:sc-blocked-recipient:completion")
+	}
+}
+
 func (rn *runner) corpus() {
+	rn.corpusBlockedRecipient()
 	rn.corpusRounding()
 	rn.corpusSubsecond()
 	rn.corpusZeroLiquidity()
